@@ -45,9 +45,10 @@ type ptrAlt struct {
 
 // SliceV is a slice with value semantics: a length and an element function.
 type SliceV struct {
-	Len *Term
-	At  func(i *Term) Value
-	Nil *Term // may be nil (== unknown/not tracked -> treated as False)
+	Len  *Term
+	At   func(i *Term) Value
+	Nil  *Term  // may be nil (== unknown/not tracked -> treated as False)
+	Name string // base slices only: name of the uninterpreted element function
 }
 
 // MapV is a Go map: reference identity + SMT arrays for domain and content.
